@@ -241,7 +241,10 @@ def wkt_job(args):
         rows = fs.wkt.create_wkt(c0).splitlines()
         del v0, e0, c0
         if closed:      # WKT proper: a ring repeats its first point
-            rows = [r[:-2] + ", " + r.split("((")[1].split(",")[0].strip() + "))" for r in rows]
+            def close(r):
+                pts = [p.strip() for p in r.split("((")[1][:-2].split(",")]
+                return r if pts[0] == pts[-1] else r[:-2] + ", " + pts[0] + "))"
+            rows = [close(r) for r in rows]
         v, e, c = fs.wkt.create_lattice(rows)
         after, _, _, _ = project.project_mesh(v, e, c, with_pos=True)
         del v, e, c
@@ -404,7 +407,9 @@ def run(ctx):
     for cid, p in payloads.items():
         slim[cid] = p if p["kind"] != "tree" else {k: p[k] for k in ("kind", "case", "base", "k", "first", "seconds",
                                                                      "model_first", "model_seconds")}
-    ctx.judge(verdicts, slim)
+    # unmatched failures first (the report prints the first 40 violations), then the known-finding instances
+    ctx.judge({c: [dict(vj, kf=[]) for vj in vjs] for c, vjs in verdicts.items()}, slim)
+    ctx.judge({c: [dict(vj, fails=[], hits=[], rejected=False) for vj in vjs] for c, vjs in verdicts.items()}, slim)
     ctx.rule = ("TLC (MC_CellRemoval) enumerates per catalogue tissue x interior points per edge every remove_cell(t, c) and "
                 "remove_outermost_edges(t, 1) (is_border flag families) in a two-frame session and every sequence of two; each "
                 "behaviour is replayed on a real ForSys built from fresh Frames and judged by TLC (Trace_Edits2) against "
